@@ -8,7 +8,7 @@ res = json.load(open(os.path.join(HERE, 'seeded', 'RESULTS.json')))
 def summary(sid):
     d = os.path.join(HERE, 'seeded', sid)
     notes = open(os.path.join(d, 'notes.md'), encoding='utf8').read()
-    letter = {'A': 'A', 'B': 'B', 'C': 'A', 'D': 'B', 'E': 'A', 'F': 'B', 'G': 'A', 'H': 'B', 'I': 'A', 'J': 'B'}[sid.split('-')[1]]
+    letter = {'A': 'A', 'B': 'B', 'C': 'A', 'D': 'B', 'E': 'A', 'F': 'B', 'G': 'A', 'H': 'B', 'I': 'A', 'J': 'B', 'K': 'A', 'L': 'B'}[sid.split('-')[1]]
     m = re.search(r'^#+\s*(?:Change\s+)?%s\b[^\n]*' % letter, notes, re.M | re.I)
     if m:
         t = re.sub(r'^#+\s*', '', m.group(0)).strip()
